@@ -105,3 +105,12 @@ Example C17_nonvacuous :
   quote true (unquote b) = [x61; xc3; xa9; xf0; x9f; x98; x80; xef; xbf; xbd; x78; x5c; x6e; x5c; x75; x30; x30; x33; x63] /\
   unquote (quote true (unquote b)) = unquote b.
 Proof. vm_compute. repeat split; reflexivity. Qed.
+
+(* ---- the fork's string encoder, re-translated from encode.go on every run, is the model's quote
+   (QuoteTie.v; see Properties/C15.v) ---- *)
+From JP Require QuoteTie.
+From JP.gen Require QuoteGen.
+Theorem C17_go_string_encoder_is_quote : forall esc s,
+  QuoteGen.quote_full_gen esc s = [x22] ++ quote esc s ++ [x22].
+Proof. exact QuoteTie.quote_full_gen_is_quote. Qed.
+Print Assumptions C17_go_string_encoder_is_quote.
